@@ -1,7 +1,9 @@
 use crate::engine::Prop;
 
 pub mod c01;
+pub mod c04;
+pub mod c05;
 
 pub fn all() -> Vec<&'static dyn Prop> {
-    vec![&c01::C01]
+    vec![&c01::C01, &c04::C04, &c05::C05]
 }
